@@ -63,6 +63,7 @@ class Power(base.BinaryExpression):
     ) -> float:
         if (not self._left._variable_names) and self._left._evaluate(point) == 1:
             # If we find something like `Constant(1) ** Whatever`, we can short-circuit.
+            self._right._evaluate(point) # but the exponent must still be defined at the point
             return 0
         else:
             left_value = self._left._evaluate(point)
@@ -94,7 +95,7 @@ class Power(base.BinaryExpression):
     ) -> None:
         if (not self._left._variable_names) and self._left._evaluate(point) == 1:
             # If we find something like `Constant(1) ** Whatever`, we can short-circuit.
-            pass
+            self._right._evaluate(point) # but the exponent must still be defined at the point
         else:
             left_value = self._left._evaluate(point)
             right_value = self._right._evaluate(point)
